@@ -22,6 +22,8 @@ type Env struct {
 	depth   int
 	recName string
 	noInst  bool
+	recSym  string
+	entryVars map[string]Val
 }
 
 func (f *FnCtx) newEnv(pkg string, heap, old *Heap, vars map[string]Val, results []Val) *Env {
@@ -70,15 +72,18 @@ func (fr *frame) specEnv(heap, old *Heap, results []Val) *Env {
 	return fr.f.newEnv(pkg, heap, old, vars, results)
 }
 
+// addVars adds the source-level variables visible at a program point; they
+// shadow parameters of the same name (a reassigned parameter), whose entry
+// value stays reachable through old(name).
 func (e *Env) addVars(m map[string]Val) {
+	if e.entryVars == nil {
+		e.entryVars = e.vars
+	}
 	nv := map[string]Val{}
 	for k, v := range e.vars {
 		nv[k] = v
 	}
 	for k, v := range m {
-		if _, isParam := e.vars[k]; isParam {
-			continue
-		}
 		nv[k] = v
 	}
 	e.vars = nv
@@ -235,7 +240,11 @@ func (e *Env) eval(x Expr) (Val, error) {
 		}
 		return Val{}, fmt.Errorf("unknown identifier %q", n.Name)
 	case *EOld:
-		return e.with(e.old).eval(n.X)
+		o := e.with(e.old)
+		if e.entryVars != nil {
+			o.vars = e.entryVars
+		}
+		return o.eval(n.X)
 	case *EUnary:
 		v, err := e.eval(n.X)
 		if err != nil {
@@ -577,10 +586,12 @@ func (e *Env) applyPred(p *PredSpec, args []Val) (Val, error) {
 	return v, nil
 }
 
-// applyRec: recursive spec function -> define-fun-rec over scalar parameters (heap independent).
+// applyRec: recursive spec function -> define-fun-rec over scalar parameters.
+// The body may read the heap; the definition is keyed by the body text, so two
+// uses at heap versions that agree on everything the body reads share one
+// definition, and uses at different versions get distinct functions.
 func (e *Env) applyRec(p *PredSpec, args []Val) (Val, error) {
 	f := e.f
-	name := "sf." + p.Name
 	var rt types.Type = types.Typ[types.Bool]
 	if p.Ret != nil {
 		var err error
@@ -589,33 +600,32 @@ func (e *Env) applyRec(p *PredSpec, args []Val) (Val, error) {
 			return Val{}, err
 		}
 	}
-	if _, ok := f.c.syms[name]; !ok {
-		var pn, ps []string
-		vars := map[string]Val{}
-		for _, pa := range p.Params {
-			t, err := f.e.resolveType(p.Pkg, pa.T)
-			if err != nil {
-				return Val{}, err
-			}
-			if !isScalarKind(kindOf(t)) {
-				return Val{}, fmt.Errorf("recursive spec function %s: non-scalar parameter %s", p.Name, pa.Name)
-			}
-			bn := "sfp." + pa.Name
-			pn = append(pn, bn)
-			ps = append(ps, sortOfType(t))
-			vars[pa.Name] = Val{K: kindOf(t), T: t, Tm: bn}
-		}
-		// declare first (for recursion), then define
-		f.c.syms[name] = &sym{name: name, idx: -1}
-		sub := &Env{f: f, pkg: p.Pkg, heap: e.heap, old: e.old, vars: vars, bound: map[string]Val{}, depth: e.depth + 1}
-		sub.recName = p.Name
-		body, err := sub.eval(p.Body)
+	var pn, ps []string
+	vars := map[string]Val{}
+	for _, pa := range p.Params {
+		t, err := f.e.resolveType(p.Pkg, pa.T)
 		if err != nil {
-			delete(f.c.syms, name)
-			return Val{}, fmt.Errorf("in %s: %v", p.Name, err)
+			return Val{}, err
 		}
-		delete(f.c.syms, name)
-		f.c.defineFun(name, pn, ps, sortOfType(rt), body.Tm, true)
+		if !isScalarKind(kindOf(t)) {
+			return Val{}, fmt.Errorf("recursive spec function %s: non-scalar parameter %s", p.Name, pa.Name)
+		}
+		bn := "sfp." + pa.Name
+		pn = append(pn, bn)
+		ps = append(ps, sortOfType(t))
+		vars[pa.Name] = Val{K: kindOf(t), T: t, Tm: bn}
+	}
+	placeholder := "sf." + p.Name + ".SELF"
+	sub := &Env{f: f, pkg: p.Pkg, heap: e.heap, old: e.old, vars: vars, bound: map[string]Val{}, depth: e.depth + 1, noInst: true}
+	sub.recName = p.Name
+	sub.recSym = placeholder
+	body, err := sub.eval(p.Body)
+	if err != nil {
+		return Val{}, fmt.Errorf("in %s: %v", p.Name, err)
+	}
+	name := fmt.Sprintf("sf.%s.%x", p.Name, hash32(body.Tm))
+	if _, ok := f.c.syms[name]; !ok {
+		f.c.defineFun(name, pn, ps, sortOfType(rt), strings.ReplaceAll(body.Tm, placeholder, name), true)
 	}
 	var ts []string
 	for i, a := range args {
@@ -625,32 +635,6 @@ func (e *Env) applyRec(p *PredSpec, args []Val) (Val, error) {
 		ts = append(ts, a.Tm)
 	}
 	return Val{K: kindOf(rt), T: rt, Tm: app(name, ts...)}, nil
-}
-
-// evalAddr: the address denoted by a selector expression x.f (for locks embedded in structs).
-func (e *Env) evalAddr(x Expr) (string, error) {
-	if sel, ok := x.(*ESel); ok {
-		base, err := e.eval(sel.X)
-		if err != nil {
-			return "", err
-		}
-		if pt, ok := base.T.Underlying().(*types.Pointer); ok && base.K == KRef {
-			if i, ok := fieldIndex(pt.Elem(), sel.Name); ok {
-				ft := pt.Elem().Underlying().(*types.Struct).Field(i).Type()
-				if kindOf(ft) == KStruct {
-					return e.f.faddr(base.Tm, pt.Elem(), i), nil
-				}
-			}
-		}
-	}
-	v, err := e.eval(x)
-	if err != nil {
-		return "", err
-	}
-	if v.K != KRef {
-		return "", fmt.Errorf("expected a lock/pointer expression")
-	}
-	return v.Tm, nil
 }
 
 func (e *Env) evalArgs(args []Expr) ([]Val, error) {
@@ -816,7 +800,7 @@ func (e *Env) evalCall(n *ECall) (Val, error) {
 		// held(mutexAddrExpr): lock mode of a mutex
 		return intVal(f.lockHeld(e.heap, args[0].Tm)), nil
 	case "closed":
-		return boolVal(f.ghostAt(e.heap, "chan.closed", sortBool, args[0].Tm)), nil
+		return boolVal(f.ghostAt(e.heap, chanClosedGhost(args[0].T), sortBool, args[0].Tm)), nil
 	}
 	if p, ok := f.e.specs.preds[id.Name]; ok {
 		if e.recName == id.Name {
@@ -828,7 +812,7 @@ func (e *Env) evalCall(n *ECall) (Val, error) {
 			if p.Ret != nil {
 				rt, _ = f.e.resolveType(p.Pkg, p.Ret)
 			}
-			return Val{K: kindOf(rt), T: rt, Tm: app("sf."+p.Name, ts...)}, nil
+			return Val{K: kindOf(rt), T: rt, Tm: app(e.recSym, ts...)}, nil
 		}
 		return e.applyPred(p, args)
 	}
@@ -847,6 +831,20 @@ func (e *Env) evalCall(n *ECall) (Val, error) {
 		}
 		key := f.ghostKey(g.Name, sortOfType(t), true, sortOfType(it))
 		return Val{K: kindOf(t), T: t, Tm: app("select", f.hs.read(e.heap, key), a.Tm)}, nil
+	}
+	if cs, ok := f.e.specs.csByKey[id.Name]; ok && cs.Func {
+		t, err := f.e.resolveType(cs.Pkg, &TypeExpr{Kind: "name", Name: id.Name})
+		if err == nil {
+			if sig, ok := t.Underlying().(*types.Signature); ok {
+				var rt types.Type
+				if sig.Results().Len() == 1 {
+					rt = sig.Results().At(0).Type()
+				} else {
+					rt = sig.Results()
+				}
+				return f.pureApp("cs."+cs.Key, args, rt), nil
+			}
+		}
 	}
 	// Go function of the spec's package
 	if sp := f.e.spkgs[e.pkg]; sp != nil {
@@ -978,6 +976,10 @@ func (e *Env) boundVal(base string, t types.Type, decls *[]string) Val {
 func (e *Env) havocLocation(h *Heap, x Expr) (*Heap, error) {
 	f := e.f
 	pointwise := func(key, obj string) *Heap {
+		if f.dirtyKey == nil {
+			f.dirtyKey = map[string]bool{}
+		}
+		f.dirtyKey[key] = true
 		arr := f.hs.read(h, key)
 		nv := f.c.freshConst("mod."+key, arrayElemSort(f.hs.sorts[key]))
 		nh := f.hs.write(h, key, f.c.define("Hm."+key, f.hs.sorts[key], app("store", arr, obj, nv)))
@@ -1041,7 +1043,7 @@ func (e *Env) havocLocation(h *Heap, x Expr) (*Heap, error) {
 				if err != nil {
 					return nil, err
 				}
-				key := f.ghostKey("chan.closed", sortBool, true, sortInt)
+				key := f.ghostKey(chanClosedGhost(a.T), sortBool, true, sortInt)
 				return pointwise(key, a.Tm), nil
 			}
 			if g, ok := f.e.specs.ghosts[id.Name]; ok && len(g.Params) == 1 && len(n.Args) == 1 {
@@ -1093,4 +1095,32 @@ func (e *Env) havocLocation(h *Heap, x Expr) (*Heap, error) {
 		}
 	}
 	return nil, fmt.Errorf("unsupported modifies item")
+}
+
+// evalAddr: the address denoted by a selector expression x.f (for locks embedded in structs).
+func (e *Env) evalAddr(x Expr) (string, error) {
+	if sel, ok := x.(*ESel); ok {
+		base, err := e.eval(sel.X)
+		if err != nil {
+			return "", err
+		}
+		if base.T != nil {
+			if pt, ok := base.T.Underlying().(*types.Pointer); ok && base.K == KRef {
+				if i, ok := fieldIndex(pt.Elem(), sel.Name); ok {
+					ft := pt.Elem().Underlying().(*types.Struct).Field(i).Type()
+					if kindOf(ft) == KStruct {
+						return e.f.faddr(base.Tm, pt.Elem(), i), nil
+					}
+				}
+			}
+		}
+	}
+	v, err := e.eval(x)
+	if err != nil {
+		return "", err
+	}
+	if v.K != KRef {
+		return "", fmt.Errorf("expected a lock/pointer expression")
+	}
+	return v.Tm, nil
 }
